@@ -55,6 +55,7 @@ func hcGenExchange(rng *sim.Rand, prop string, sc *hcScenario) hcExchange {
 		ex.Chunked = rng.Bool(0.4)
 		ex.ChunkSz = rng.Pick(1, 7, 100, 4096, 0)
 		ex.Inc = rng.Bool(0.3)
+		ex.ReqGzip = prop == "C03" && ex.BodyLen > 0 && rng.Bool(0.2)
 	}
 	ex.AcceptEnc = rng.PickStr("", "", "gzip", "gzip, deflate", "identity", "br")
 	ex.NewConn = rng.Bool(0.2)
@@ -406,6 +407,9 @@ func hcValid(sc *hcScenario) bool {
 						return false
 					}
 				}
+				if ex.ReqGzip && sc.Prop != "C03" {
+					return false
+				}
 				if ex.RGzipBad != 0 && (!ex.RGzip || ex.RBodyLen < 100 || ex.RGzipBad > 2 || ex.RGzipBad < 0) {
 					return false
 				}
@@ -571,7 +575,7 @@ func (c *hcChain) checkC03(id string, ex *hcExchange, res *hcResp) {
 			r.Violate("C03.req.stream-body-resent", "%s: streamed request was sent to the backend %d times; attempt bodies: %d\n%s", id, seen.count, len(seen.attempts), desc)
 			return
 		}
-		if !bytes.Equal(seen.body, hcBody("q"+id, ex.BodyLen, ex.Inc)) && c.sc.ReqAdaptor == "" {
+		if !bytes.Equal(seen.body, hcBody("q"+id, ex.BodyLen, ex.Inc)) && c.sc.ReqAdaptor == "" && !ex.ReqGzip {
 			r.Violate("C03.req.body/"+c.facts(ex), "%s: backend saw body %s want %s\n%s", id, hcShort(seen.body), hcShort(hcBody("q"+id, ex.BodyLen, ex.Inc)), desc)
 		}
 		if res.status != 502 {
@@ -589,7 +593,7 @@ func (c *hcChain) checkC03(id string, ex *hcExchange, res *hcResp) {
 		plainAll := hcBody("q"+id, ex.BodyLen, ex.Inc)
 		for ai, ab := range seen.attempts {
 			got := ab
-			if c.sc.ReqAdaptor != "" {
+			if c.sc.ReqAdaptor != "" || ex.ReqGzip {
 				if d, err := hcDecode(ab, seen.hdr); err == nil {
 					got = d
 				}
@@ -614,7 +618,19 @@ func (c *hcChain) checkC03(id string, ex *hcExchange, res *hcResp) {
 	}
 	plain := hcBody("q"+id, ex.BodyLen, ex.Inc)
 	gotBody := seen.body
-	if c.sc.ReqAdaptor != "" {
+	if ex.ReqGzip && ex.BodyLen > 0 {
+		r.Probe("c03.request_body_gzip_from_client")
+		if c.sc.ReqAdaptor == "" {
+			// nothing in the chain may touch the encoding: bit-exact bytes, label kept
+			if wire := hcGzip(plain); seen.bodyErr == nil && !bytes.Equal(seen.body, wire) {
+				r.Violate("C03.req.body/"+c.facts(ex), "%s: client sent a gzip body of %d bytes, backend saw %d other bytes (%s)\n%s", id, len(wire), len(seen.body), hcShort(seen.body), desc)
+			}
+			if seen.hdr.Get("Content-Encoding") != "gzip" {
+				r.Violate("C03.req.header-lost", "%s: Content-Encoding of the request: backend saw %q want gzip\n%s", id, seen.hdr.Values("Content-Encoding"), desc)
+			}
+		}
+	}
+	if c.sc.ReqAdaptor != "" || ex.ReqGzip {
 		// the adaptor may legitimately re-encode; compare decoded content
 		if d, err := hcDecode(gotBody, seen.hdr); err == nil {
 			gotBody = d
@@ -651,7 +667,7 @@ func (c *hcChain) checkC03(id string, ex *hcExchange, res *hcResp) {
 			r.Violate("C03.req.hop-header-forwarded", "%s: hop-by-hop header %s reached the backend with %q\n%s", id, k, seen.hdr.Values(k), desc)
 		}
 	}
-	allowed := map[string]bool{"Accept-Encoding": true, "User-Agent": true, "Content-Length": true, "X-Verif-Id": true, "Content-Encoding": c.sc.ReqAdaptor != ""}
+	allowed := map[string]bool{"Accept-Encoding": true, "User-Agent": true, "Content-Length": true, "X-Verif-Id": true, "Content-Encoding": c.sc.ReqAdaptor != "" || ex.ReqGzip}
 	for k := range seen.hdr {
 		if _, ok := want[k]; !ok && !allowed[k] && !hcHop[k] && !named[k] {
 			r.Violate("C03.req.header-added", "%s: backend saw header %s=%q that the client did not send\n%s", id, k, seen.hdr.Values(k), desc)
@@ -761,7 +777,7 @@ func (c *hcChain) checkMirror(id string, ex *hcExchange, res *hcResp) {
 	}
 	if c.reqLimit(ex) >= 0 && ms.bodyErr == nil {
 		got := ms.body
-		if c.sc.ReqAdaptor != "" {
+		if c.sc.ReqAdaptor != "" || ex.ReqGzip {
 			if d, err := hcDecode(got, ms.hdr); err == nil {
 				got = d
 			}
